@@ -2851,7 +2851,7 @@ func (p *Parser) parseKeywordAsFunction() ast.Expression {
 	}
 
 	// Handle view() and similar functions that take a subquery as argument
-	if name == "view" && (p.currentIs(token.SELECT) || p.currentIs(token.WITH)) {
+	if strings.ToLower(name) == "view" && (p.currentIs(token.SELECT) || p.currentIs(token.WITH)) {
 		subquery := p.parseSelectWithUnion()
 		fn.Arguments = []ast.Expression{&ast.Subquery{Position: pos, Query: subquery}}
 	} else if !p.currentIs(token.RPAREN) {
